@@ -221,8 +221,9 @@ class AsfPong(AsfMsg):
     def check_data(self):
         if self.oem_iana_enterprise_number == 4542 and self.oem_defined != 0:
             raise DecodingError('SDU malformed')
-        if self.supported_interactions != 0:
-            raise DecodingError('SDU malformed')
+        # supported_interactions is a capability bit field (ASF 2.0: bit 7 =
+        # RMCP security extensions supported, DASH: bit 5), not a reserved
+        # byte: a pong that sets bits there is well-formed.
 
     def check_header(self):
         if self.asf_type != self.ASF_TYPE_PRESENCE_PONG:
